@@ -1037,6 +1037,12 @@ func buildTargets() []*target {
 		{RuntimeCheckTxBatchResponse: &protocol.RuntimeCheckTxBatchResponse{Results: []protocol.CheckTxResult{okRes(0), okRes(1), okRes(2)}}},
 		{RuntimeCheckTxBatchResponse: &protocol.RuntimeCheckTxBatchResponse{Results: []protocol.CheckTxResult{okRes(0),
 			{Error: protocol.Error{Module: "m", Code: 2, Message: "bad tx"}}, okRes(0)}}},
+		// a wrong number of results for the three submitted transactions: surplus, deficit, none
+		{RuntimeCheckTxBatchResponse: &protocol.RuntimeCheckTxBatchResponse{Results: []protocol.CheckTxResult{okRes(0), okRes(1), okRes(2), okRes(3)}}},
+		{RuntimeCheckTxBatchResponse: &protocol.RuntimeCheckTxBatchResponse{Results: []protocol.CheckTxResult{okRes(0), okRes(1), okRes(2), okRes(3), okRes(4), okRes(5), okRes(6)}}},
+		{RuntimeCheckTxBatchResponse: &protocol.RuntimeCheckTxBatchResponse{Results: []protocol.CheckTxResult{okRes(0), okRes(1)}}},
+		{RuntimeCheckTxBatchResponse: &protocol.RuntimeCheckTxBatchResponse{}},
+		{RuntimeExecuteTxBatchResponse: &protocol.RuntimeExecuteTxBatchResponse{}},
 	}
 	var checkSeeds [][]byte
 	for _, b := range checkBodies {
